@@ -4,7 +4,7 @@ import (
 	"bufio"
 	"bytes"
 	"encoding/binary"
-	"encoding/json"
+	"encoding/gob"
 	"fmt"
 	"io"
 	"os"
@@ -163,10 +163,11 @@ func (s *Sandbox) do(req *Req) *Resp {
 	if dl == 0 {
 		dl = DefaultDeadlineMs
 	}
-	payload, err := json.Marshal(req)
-	if err != nil {
+	var pbuf bytes.Buffer
+	if err := gob.NewEncoder(&pbuf).Encode(req); err != nil {
 		return &Resp{Status: "infra", Err: "marshal: " + err.Error()}
 	}
+	payload := pbuf.Bytes()
 	var hdr [4]byte
 	binary.LittleEndian.PutUint32(hdr[:], uint32(len(payload)))
 	type rd struct {
@@ -199,7 +200,7 @@ func (s *Sandbox) do(req *Req) *Resp {
 	case r := <-ch:
 		if r.err == nil {
 			var resp Resp
-			if err := json.Unmarshal(r.buf, &resp); err != nil {
+			if err := gob.NewDecoder(bytes.NewReader(r.buf)).Decode(&resp); err != nil {
 				s.kill()
 				return &Resp{Status: "infra", Err: "unmarshal: " + err.Error()}
 			}
